@@ -34,6 +34,8 @@ func checkC01(ctx *Ctx, r *Report) {
 	c01SiblingReplacements(ctx, r)
 	c06NullableGuardExact(ctx, r)
 	c01DiscriminatorDistinct(ctx, r)
+	c01MapOnlyWithoutProperties(ctx, r)
+	c01GoFieldTypeOverride(ctx, r)
 	c01LoopLocalResult(ctx, r)
 }
 
@@ -50,6 +52,7 @@ func checkC11(ctx *Ctx, r *Report) {
 	c01GoWireNames(ctx, r)
 	c11HintMonotone(ctx, r)
 	c11GoPointerLast(ctx, r)
+	c01GoFieldTypeOverride(ctx, r)
 	c06ResolveBeforeKindTest(ctx, r)
 	inProgressRestored(ctx, r, []string{"internal/jennies/python/rawtypes.go"}, 1)
 }
@@ -1202,6 +1205,46 @@ func c01DiscriminatorDistinct(ctx *Ctx, r *Report) {
 				return true
 			})
 		}
+		// … and on *all* of them being different: the number of distinct values is compared for equality with the number of members
+		allDistinct := false
+		for _, ctl := range controllingIfs(parents, fd, as) {
+			ast.Inspect(ctl.Cond, func(q ast.Node) bool {
+				be, ok := q.(*ast.BinaryExpr)
+				if !ok || be.Op != token.EQL {
+					return true
+				}
+				lenOf := func(e ast.Expr) (ast.Expr, bool) {
+					c, ok := ast.Unparen(e).(*ast.CallExpr)
+					if !ok || len(c.Args) != 1 {
+						return nil, false
+					}
+					if id, ok := c.Fun.(*ast.Ident); !ok || id.Name != "len" {
+						return nil, false
+					}
+					return c.Args[0], true
+				}
+				a, okA := lenOf(be.X)
+				b, okB := lenOf(be.Y)
+				if !okA || !okB {
+					return true
+				}
+				ta, tb := false, false
+				if id, ok := ast.Unparen(a).(*ast.Ident); ok && tainted[objOf(info, id)] {
+					ta = true
+				}
+				if id, ok := ast.Unparen(b).(*ast.Ident); ok && tainted[objOf(info, id)] {
+					tb = true
+				}
+				if ta != tb {
+					allDistinct = true
+				}
+				return true
+			})
+		}
+		if dependsOnValues {
+			r.Check(allDistinct, "flow/discriminator-distinct", "DisjunctionInferMapping.inferDiscriminatorField requires pairwise distinct values", as.Pos(), "the number of distinct values equals the number of members",
+				"inferDiscriminatorField accepts a candidate whose values are not all different (the test is weaker than `len(distinct) == len(members)`): with three members of which two share the constant, one member loses its mapping entry and its documents are decoded as another member")
+		}
 		r.Check(dependsOnValues, "flow/discriminator-distinct", "DisjunctionInferMapping.inferDiscriminatorField selects a field", as.Pos(), "the selection depends on the values the field takes in the members",
 			"inferDiscriminatorField selects a field knowing only that every member has it as a constant: a constant shared by the members (`apiVersion: \"v1\"`) that sorts before the real discriminator is chosen, the mapping collapses to one entry and every document is decoded as the same member")
 		return true
@@ -1457,4 +1500,125 @@ func c06ResolveBeforeKindTest(ctx *Ctx, r *Report) {
 	}
 	r.Count("loops over type lists one element of which is resolved in the same function", n)
 	r.Floor("loops over type lists one element of which is resolved in the same function", 1)
+}
+
+// c01MapOnlyWithoutProperties: an object with declared properties is a struct, whatever its additionalProperties say; both
+// JSON-family front-ends build a map only for objects without properties. A map built for an object that has properties
+// declares every property with the type of the additional ones: accepted documents no longer decode.
+func c01MapOnlyWithoutProperties(ctx *Ctx, r *Report) {
+	newMap := ctx.LookupFunc("internal/ast", "NewMap")
+	n := 0
+	for _, rel := range []string{"internal/openapi", "internal/jsonschema"} {
+		p := ctx.Pkg(rel)
+		if p == nil || newMap == nil {
+			r.Undecided("anchor lost: %s / ast.NewMap", rel)
+			continue
+		}
+		info := p.TypesInfo
+		for _, file := range p.Syntax {
+			for _, d := range file.Decls {
+				fd, ok := d.(*ast.FuncDecl)
+				if !ok || fd.Body == nil || fd.Name.Name != "walkObject" {
+					continue
+				}
+				parents := parentMap(fd)
+				noProps := func(cond ast.Expr, truth bool) bool {
+					// len(X.Properties) == 0 (truth) / != 0, > 0 (negated)
+					found := false
+					ast.Inspect(cond, func(q ast.Node) bool {
+						be, ok := q.(*ast.BinaryExpr)
+						if !ok {
+							return true
+						}
+						c, ok := ast.Unparen(be.X).(*ast.CallExpr)
+						if !ok {
+							return true
+						}
+						id, ok := c.Fun.(*ast.Ident)
+						if !ok || id.Name != "len" || len(c.Args) != 1 || !strings.HasSuffix(exprString(c.Args[0]), ".Properties") {
+							return true
+						}
+						if tv, ok := info.Types[be.Y]; ok && tv.Value != nil && tv.Value.String() == "0" {
+							if (be.Op == token.EQL) == truth && (be.Op == token.EQL || be.Op == token.NEQ || be.Op == token.GTR) {
+								found = true
+							}
+						}
+						return true
+					})
+					return found
+				}
+				ast.Inspect(fd.Body, func(m ast.Node) bool {
+					c, ok := m.(*ast.CallExpr)
+					if !ok || callee(info, c) != newMap {
+						return true
+					}
+					n++
+					guarded := false
+					for _, ce := range enclosingConds(parents, c) {
+						if noProps(ce.stmt.Cond, !ce.inElse) {
+							guarded = true
+						}
+					}
+					r.Check(guarded, "frontier/map-only-without-properties", rel+".walkObject builds a map", c.Pos(), "only for objects without declared properties",
+						rel+".walkObject can build a map for an object that declares properties (additionalProperties is looked at first): the declared properties get the type of the additional ones and documents the schema accepts fail to decode")
+					return true
+				})
+			}
+		}
+	}
+	r.Count("maps built by the JSON-family object walkers", n)
+	r.Floor("maps built by the JSON-family object walkers", 2)
+}
+
+// c01GoFieldTypeOverride: Go declares a field that refers to a *constant* with the constant's own scalar type. Replacing
+// the field's type by the resolved one drops what the field itself says (its nullability: optional fields are pointers):
+// it is only sound for constants. The override in formatField must sit under IsConcreteScalar() of the resolved type.
+func c01GoFieldTypeOverride(ctx *Ctx, r *Report) {
+	p := ctx.Pkg("internal/jennies/golang")
+	fn := ctx.LookupMethod("internal/jennies/golang", "typeFormatter", "formatField")
+	fd, _ := ctx.DeclOf(fn)
+	if p == nil || fd == nil {
+		r.Undecided("anchor lost: golang.typeFormatter.formatField")
+		return
+	}
+	info := p.TypesInfo
+	parents := parentMap(fd)
+	typeT := ctx.LookupType("internal/ast", "Type")
+	n := 0
+	ast.Inspect(fd.Body, func(m ast.Node) bool {
+		as, ok := m.(*ast.AssignStmt)
+		if !ok || as.Tok != token.ASSIGN || len(as.Lhs) != 1 || len(as.Rhs) != 1 {
+			return true
+		}
+		lid, ok := as.Lhs[0].(*ast.Ident)
+		if !ok || namedOf(info.TypeOf(lid)) != typeT {
+			return true
+		}
+		rid, ok := ast.Unparen(as.Rhs[0]).(*ast.Ident)
+		if !ok {
+			return true
+		}
+		n++
+		concrete := false
+		for _, ce := range enclosingConds(parents, as) {
+			if ce.inElse {
+				continue
+			}
+			ast.Inspect(ce.stmt.Cond, func(q ast.Node) bool {
+				if c, ok := q.(*ast.CallExpr); ok {
+					if sel, ok := c.Fun.(*ast.SelectorExpr); ok && sel.Sel.Name == "IsConcreteScalar" {
+						if id, ok := ast.Unparen(sel.X).(*ast.Ident); ok && objOf(info, id) == objOf(info, rid) {
+							concrete = true
+						}
+					}
+				}
+				return true
+			})
+		}
+		r.Check(concrete, "skeleton/go-field-type-override", "golang.typeFormatter.formatField replaces the field's type", as.Pos(), "only by a resolved type that is a constant (IsConcreteScalar)",
+			fmt.Sprintf("formatField replaces the field's type by %s without establishing that it is a constant: for a reference to a named scalar the field's own nullability is lost — an optional field becomes a plain value with omitempty and its zero value disappears on encoding", rid.Name))
+		return true
+	})
+	r.Count("type overrides in golang.formatField", n)
+	r.Floor("type overrides in golang.formatField", 1)
 }
